@@ -67,3 +67,68 @@ def register(R):
                 "OSError": [("nothing-consumed", "ghost.DG_IN == old(ghost.DG_IN)", "C05")]},
         modifies=["ghost.DG_IN"], tags="C05",
     ))
+    register_async(R)
+
+
+def register_async(R):
+    """Asynchronous datagram endpoint (lowlevel/api_async/endpoints/datagram.py): the same one-datagram-per-call statements as
+    the blocking one (C05), under the endpoint's send / receive guards (C12)."""
+    R.module("easynetwork/lowlevel/api_async/transports/abc.py")
+    for cls in ("AsyncDatagramReadTransport", "AsyncDatagramWriteTransport"):
+        R.shape(cls, cls=cls, fields={"close_requested": "bool", "the_backend": "AsyncBackend"})
+    R.contract("AsyncDatagramReadTransport.recv", result="bytes", trusted=True,
+               ensures=["ghost.DG_IN == old(ghost.DG_IN) + unit(result)"], raises={"BaseException": ["ghost.DG_IN == old(ghost.DG_IN)"]}, modifies=["ghost.DG_IN"])
+    R.contract("AsyncDatagramWriteTransport.send", params={"data": "bytes"}, trusted=True,
+               ensures=["ghost.DG_OUT == old(ghost.DG_OUT) + unit(data)"],
+               raises={"BaseException": ["ghost.DG_OUT == old(ghost.DG_OUT) or ghost.DG_OUT == old(ghost.DG_OUT) + unit(data)"]}, modifies=["ghost.DG_OUT"])
+    R.module("easynetwork/lowlevel/api_async/endpoints/datagram.py")
+    conv = "self.protocol._DatagramProtocol__converter"
+    R.shape("_AsyncDatagramSenderImpl", cls="_DataSenderImpl", fields={"transport": "AsyncDatagramWriteTransport", "protocol": "DatagramProtocol"})
+    R.shape("_AsyncDatagramReceiverImpl", cls="_DataReceiverImpl", fields={"transport": "AsyncDatagramReadTransport", "protocol": "DatagramProtocol"})
+    dg = f"(fn('S_one', 'bytes', packet) if isnone({conv}) else fn('S_one', 'bytes', fn('K_dto', 'obj', packet)))"
+    R.contract(
+        "_DataSenderImpl.send", self_shape="_AsyncDatagramSenderImpl",
+        params={"packet": "obj"},
+        ensures=[("exactly-one-datagram-carrying-the-serialized-packet", f"ghost.DG_OUT == old(ghost.DG_OUT) + unit({dg})", "C05")],
+        raises={"BaseException": [("nothing-or-the-datagram", f"ghost.DG_OUT == old(ghost.DG_OUT) or ghost.DG_OUT == old(ghost.DG_OUT) + unit({dg})", "C05")]},
+        modifies=["ghost.DG_OUT"], tags="C05",
+    )
+    last = "ghost.DG_IN[len(old(ghost.DG_IN))]"
+    ok = f"(fn('Dg_ok', 'bool', {last}) and (isnone({conv}) or fn('K_ok', 'bool', fn('Dg_val', 'obj', {last}))))"
+    R.contract(
+        "_DataReceiverImpl.receive", self_shape="_AsyncDatagramReceiverImpl",
+        result="obj",
+        ensures=[("exactly-one-datagram-consumed", "len(ghost.DG_IN) == len(old(ghost.DG_IN)) + 1", "C05"),
+                 ("packet-is-the-decoding-of-that-datagram-alone", f"{ok} and result == (fn('Dg_val', 'obj', {last}) if isnone({conv}) else fn('K_val', 'obj', fn('Dg_val', 'obj', {last})))", "C05")],
+        raises={"DatagramProtocolParseError": [("exactly-one-datagram-consumed-and-it-is-the-malformed-one", f"len(ghost.DG_IN) == len(old(ghost.DG_IN)) + 1 and not {ok}", "C05 C06")],
+                "BaseException": [("a-failed-or-cancelled-receive-consumes-nothing", "ghost.DG_IN == old(ghost.DG_IN)", "C05 C10")]},
+        modifies=["ghost.DG_IN"], tags="C05",
+    )
+    sg, rg = "self.__send_guard._ResourceGuard__held", "self.__recv_guard._ResourceGuard__held"
+    R.shape("AsyncDatagramEndpointIO", cls="AsyncDatagramEndpoint",
+            fields={"__transport": "AsyncDatagramTransport", "__sender": "_AsyncDatagramSenderImpl", "__receiver": "_AsyncDatagramReceiverImpl",
+                    "__send_guard": "ResourceGuard", "__recv_guard": "ResourceGuard"})
+    convE = "self.__sender.protocol._DatagramProtocol__converter"
+    dgE = f"(fn('S_one', 'bytes', packet) if isnone({convE}) else fn('S_one', 'bytes', fn('K_dto', 'obj', packet)))"
+    R.contract(
+        "AsyncDatagramEndpoint.send_packet", self_shape="AsyncDatagramEndpointIO",
+        params={"packet": "obj"},
+        ensures=[("exactly-one-datagram-carrying-the-serialized-packet", f"ghost.DG_OUT == old(ghost.DG_OUT) + unit({dgE})", "C05 C12"),
+                 ("guard-was-free-and-is-released", f"not old({sg}) and not {sg}", "C12")],
+        raises={"BusyResourceError": [("second-entrant-is-refused-without-sending", f"old({sg}) and ghost.DG_OUT == old(ghost.DG_OUT) and {sg}", "C12")],
+                "BaseException": [("guard-released-on-every-exit", f"not {sg}", "C12")]},
+        modifies=["ghost.DG_OUT", sg],
+        env={"call_hints": {"send": [("the-datagram-is-sent-while-the-guard-is-held", sg)]}},
+        tags="C05 C12",
+    )
+    R.contract(
+        "AsyncDatagramEndpoint.recv_packet", self_shape="AsyncDatagramEndpointIO",
+        result="obj",
+        ensures=[("exactly-one-datagram-consumed", "len(ghost.DG_IN) == len(old(ghost.DG_IN)) + 1", "C05"),
+                 ("guard-was-free-and-is-released", f"not old({rg}) and not {rg}", "C12")],
+        raises={"DatagramProtocolParseError": [("exactly-one-datagram-consumed", "len(ghost.DG_IN) == len(old(ghost.DG_IN)) + 1", "C05 C06"), ("guard-released", f"not {rg}", "C12")],
+                "BusyResourceError": [("second-entrant-is-refused-without-receiving", f"old({rg}) and ghost.DG_IN == old(ghost.DG_IN) and {rg}", "C12")],
+                "BaseException": [("guard-released-on-every-exit", f"not {rg}", "C12")]},
+        modifies=["ghost.DG_IN", rg],
+        tags="C05 C12",
+    )
